@@ -32,6 +32,7 @@ class Recorder:
         self.gates: Dict[Any, threading.Event] = {}
         self.gating = False
         self.blocked: Set[Any] = set()
+        self.yields: List[Any] = []
         self.foot: Dict[Any, Tuple[Any, Any]] = {}       # step uuid -> (written object uuid, read object uuid)
 
     def ev(self, kind: str, u: Any) -> None:
@@ -86,6 +87,15 @@ def install() -> None:
             REC.scans += 1
         return orig_iter(self)
     ExecutionPlan.__iter__ = counting_iter  # type: ignore[method-assign]
+
+    from mloda.core.runtime.run import ExecutionOrchestrator
+    orig_stream = ExecutionOrchestrator.compute_stream
+
+    def compute_stream(self: Any) -> Any:
+        for u, r in orig_stream(self):
+            REC.yields.append(u)
+            yield (u, r)
+    ExecutionOrchestrator.compute_stream = compute_stream  # type: ignore[method-assign]
 
     orig_create = ExecutionPlan.create_execution_plan
 
@@ -201,6 +211,7 @@ def run_observed(session: Any, modes: Optional[Set[Any]] = None, stream: bool = 
     out["end_order"] = [u2s.get(u, -1) for k, u in REC.events if k == "end"]
     out["raised_steps"] = [u2s.get(u, -1) for k, u in REC.events if k == "raise"]
     out["scans"] = REC.scans
+    out["yield_order"] = [u2s.get(u, -1) for u in REC.yields]
     objs: Dict[Any, int] = {}
 
     def oid(x: Any) -> int:
